@@ -1,5 +1,6 @@
 """Shared by C14 / C15 / C16: GinParse.tla model check + replay of exported cases into gin."""
 import json
+import random
 
 from ginverif import adapter_parse as P
 from ginverif import core
@@ -15,15 +16,18 @@ FOCUS = {
 def _c14_score(c):
   """More includes first; a file reached twice (diamond / repeated include) most of all."""
   incs = [s['file'] for d in c['files'].values() for s in d if s['t'] == 'include']
-  return len(incs) + 3 * (len(incs) - len(set(incs)))
+  return len(incs) + 3 * (len(incs) - len(set(incs))) + (100 if c.get('family') == 'locs' else 0)
 
 
 SCORE = {'C14': _c14_score, 'C15': lambda c: 0, 'C16': lambda c: len(c['result']['chain'])}
 CLAUSES = {
-    'C14': ('applied-statements', 'returned-tree', 'status', 'entry-point-order', 'location-chain', 'provenance'),
-    'C15': ('applied-statements', 'status'),
+    'C14': ('applied-statements', 'returned-tree', 'status', 'entry-point', 'location-chain', 'provenance', 'recorded-imports'),
+    'C15': ('applied-statements', 'status', 'returned-tree', 'recorded-imports'),
     'C16': ('applied-statements', 'status', 'location-chain', 'provenance', 'restored', 'later-parse-as-fresh'),
 }
+
+
+ENTRY_BINDING = dict(t='bind', scope='', sel='g', param='p', val=['lit', 'from-bindings'], lines=1)
 
 
 def _cases(res):
@@ -59,11 +63,22 @@ def run(prop, tier, rule):
     if dx.violation:
       raise tlc.TLCError('design-level violation in the diamond family: %s' % dx.violation)
     cases = _cases(dx) + cases
+    # the location family: every registration history (other orders, a location registered twice, the current directory
+    # registered explicitly) against placements where the order decides which file is read
+    lx = tlc.run('GinParse_Export', 'GinParse_Export_locs.cfg', workers=1, timeout=900)
+    rep.add_tlc('GinParse_Export_locs(every store x registration history x placement of the location family)', lx, exhaustive=True)
+    if lx.violation:
+      raise tlc.TLCError('design-level violation in the location family: %s' % lx.violation)
+    lc = [c for c in _cases(lx) if any(s['t'] == 'include' for s in c['files']['root'])]
+    for c in lc:
+      c['family'] = 'locs'
+    random.Random(rep.seed + 5).shuffle(lc)
+    cases = lc[:250 if tier == 'quick' else 4000] + cases
   focus = FOCUS[prop]
   seen = set()
   chosen = []
   for c in cases:
-    k = core.jdump([c['files'], c['skip'], c['present']])
+    k = core.jdump([c['files'], c['skip'], c['present'], c.get('reglog')])
     if k in seen:
       continue
     seen.add(k)
@@ -71,7 +86,7 @@ def run(prop, tier, rule):
   # focused cases first, then the rest, within the budget
   # focused cases first (deepest location chains first), then the rest, within the budget
   chosen.sort(key=lambda x: (not x[0], -x[2]))
-  budget = 900 if tier == 'quick' else 12000
+  budget = (900 if tier == 'quick' else 12000) + (250 if prop == 'C14' else 0)
   try:
     for i, (foc, c, _) in enumerate(chosen[:budget]):
       rep.evaluations += 1
@@ -79,11 +94,17 @@ def run(prop, tier, rule):
         rep.nontrivial_case(core.jdump([c['files'], c['skip'], c['present']]))
       obs = P.run_case(c, salt=i + rep.seed)
       d = P.compare(c, obs)
-      if d is None and c['result']['status'] == 'ok' and i % 5 == 0 and prop == 'C14' and c['present'] and len(c['present']) == 3:
-        d = P.entry_point_case(c, salt=i + rep.seed, finalize=bool(i % 2))
+      ek = None
+      if d is None and prop == 'C14' and c.get('entries') and (i % 2 == 0 or c.get('family') == 'locs'):
+        # the multi-file entry point, one argument form per case (all forms over the run)
+        c['entry_binding'] = ENTRY_BINDING
+        k = (i // 2) % len(c['entries'])
+        d = P.run_entry(c, k, salt=i + rep.seed)
+        ek = k
+        rep.nontrivial_case(core.jdump(['entry', c['entries'][k]['form'], c['entries'][k]['result']['status'], c['entries'][k]['result']['locked']]))
       if d is not None and d[0] in CLAUSES[prop]:
         rep.violation(dict(kind='parse-divergence', clause=d[0], status=c['result']['status']),
-                      dict(kind='parse-case', case=c, salt=i + rep.seed, clause=d[0], expected=d[1], got=d[2]))
+                      dict(kind='parse-case', case=c, salt=i + rep.seed, clause=d[0], expected=d[1], got=d[2], entry=ek))
       rep.behaviours_replayed += 1
   finally:
     P.teardown()
@@ -100,8 +121,11 @@ def replay(prop, path):
     blob = json.load(fh)
   r = blob['replay']
   try:
-    obs = P.run_case(r['case'], r['salt'])
-    d = P.compare(r['case'], obs)
+    if r.get('entry') is not None and r.get('clause') == 'entry-point':
+      d = P.run_entry(r['case'], r['entry'], r['salt'])
+    else:
+      obs = P.run_case(r['case'], r['salt'])
+      d = P.compare(r['case'], obs)
   finally:
     P.teardown()
   print('divergence: %s' % json.dumps(d, default=str)[:1500] if d else 'conforms')
